@@ -313,6 +313,55 @@ fn gen_cases(seed: u64, n: usize, _tier: &str) {
                 let ws = gen_sched(&mut rng, size + 3);
                 emit(&format!("g{}", i), &format!("(ptx (inst {}) (text {}) (wsched {}))", inst, pe.show(), show_sched(&ws)), "?");
             }
+            9 => {
+                // the whole server script on one connection: 1..5 requests really framed by the Rust sender, then Exit or end of stream
+                let cnt = rng.range(1, 5) as usize;
+                let mut parts: Vec<BExpr> = vec![];
+                let mut reqs: Vec<String> = vec![];
+                let mut var: Option<u64> = None;
+                let mut big_seen = false;
+                for _ in 0..cnt {
+                    let kind = rng.below(12);
+                    let (inst, script, resp): (usize, BExpr, Option<(usize, BExpr)>) = match kind {
+                        0 => (*rng.pick(&[0usize, 1, 3, 4, 7, 200]), BExpr::Hex(b"pass".to_vec()), None),
+                        1 => (6, BExpr::Hex(b"pass".to_vec()), Some((1, BExpr::Hex(b"\nNone".to_vec())))),
+                        2 => { let v = rng.below(100000); var = Some(v);
+                               (6, BExpr::Hex(format!("v = {}", v).into_bytes()), Some((1, BExpr::Hex(b"\nNone".to_vec())))) }
+                        3 if var.is_some() => (6, BExpr::Hex(b"print(v)".to_vec()), Some((1, BExpr::Hex(format!("{}\nNone", var.unwrap()).into_bytes())))),
+                        4 => (6, BExpr::Hex(b"raise SystemExit".to_vec()), Some((3, BExpr::Hex(b"SystemExit".to_vec())))),
+                        5 => { let n = rng.range(1, 9) as usize;      // multi-byte output
+                               (6, BExpr::Hex(format!("print('\u{3042}'*{})", n).into_bytes()), Some((1, BExpr::Hex(format!("{}\nNone", "\u{3042}".repeat(n)).into_bytes())))) }
+                        6 => { let n = rng.range(1, 3000) as usize;   // long script (a comment), short answer
+                               (6, BExpr::Cat(vec![BExpr::Hex(b"print(1) #".to_vec()), BExpr::Rep(n, b'c')]), Some((1, BExpr::Hex(b"1\nNone".to_vec())))) }
+                        _ => {
+                            let mut n = gen_size(&mut rng, !big_seen);
+                            if n > 60000 { big_seen = true; }
+                            if n >= 65531 && n <= 65535 { n = 65530; }            // answer = n + 5 bytes: 65535 fits exactly
+                            if n == 65534 { n = 65530; }
+                            let resp = if n == 0 { BExpr::Hex(b"\nNone".to_vec()) } else { BExpr::Cat(vec![BExpr::Rep(n, b'a'), BExpr::Hex(b"\nNone".to_vec())]) };
+                            (6, BExpr::Hex(format!("print('a'*{})", n).into_bytes()), Some((1, resp)))
+                        }
+                    };
+                    let body = script.eval();
+                    let (_, wire, ok) = run_rtx(inst, Some(body.clone()), &[]);
+                    if ok && wire.len() >= 3 && wire[3..] == body[..] { parts.push(BExpr::Hex(wire[..3].to_vec())); parts.push(script.clone()); }
+                    else { parts.push(BExpr::Hex(wire)); }
+                    reqs.push(match resp {
+                        Some((ri, rb)) => format!("({} {} {} {})", hooks::inst_from(inst as u8), script.show(), ri, rb.show()),
+                        None => format!("({} {})", hooks::inst_from(inst as u8), script.show()),
+                    });
+                }
+                if rng.chance(3, 4) {
+                    let (_, wire, _) = run_rtx(5, None, &[]);
+                    parts.push(BExpr::Hex(wire));
+                    reqs.push("(5 \"\")".to_string());
+                }
+                let wire = BExpr::Cat(parts);
+                let total = wire.eval().len();
+                let rs = gen_sched(&mut rng, total);
+                let ws = gen_sched(&mut rng, 70000);
+                emit(&format!("g{}", i), &format!("(srv (wire {}) (rsched {}) (wsched {}) (reqs {}))", wire.show(), show_sched(&rs), show_sched(&ws), reqs.join(" ")), "?");
+            }
             k => {
                 // a receiver on a stream of 1..4 frames, sometimes damaged
                 let py_rx = k >= 7;
@@ -396,7 +445,7 @@ fn replay_case(id: &str, input: &str) {
                 let n = sx_nats(sx_field(args, "n")?)?.first().cloned()?;
                 Some(run_rrx(wire, &rs, n))
             }
-            "ptx" | "prx" | "ptx-legacy" | "prx-legacy" => Some("?".to_string()),
+            "ptx" | "prx" | "srv" | "ptx-legacy" | "prx-legacy" => Some("?".to_string()),
             _ => None,
         }
     })();
@@ -432,6 +481,9 @@ fn e2e(rest: &[String]) {
         let (src, expected) = match kind.as_str() {
             "out" => (format!("print! \"s{}:\" + \"a\" * {}", k, n), format!("s{}:{}", k, "a".repeat(*n))),
             "src" => (format!("print! \"s{}:\", len(\"{}\")", k, "b".repeat(*n)), format!("s{}: {}", k, n)),
+            // observations outside the framing (see notes/C25.md): output without a final newline, an exception
+            "noeol" => (format!("print! \"s{}:\" + \"a\" * {}, end:=\"\"", k, n), format!("s{}:{}", k, "a".repeat(*n))),
+            "exc" => (format!("print! \"s{}:\", 1 // ({} - {})", k, n, n), format!("s{}: <ZeroDivisionError>", k)),
             _ => { println!("bad-step"); return; }
         };
         let got = match vm.eval(src) {
@@ -441,6 +493,7 @@ fn e2e(rest: &[String]) {
         let verdict = if got == expected { "ok" } else { "MISMATCH" };
         let mut o = out.lock();
         writeln!(o, "step {} {}:{}\texpected {}\tgot {}\t{}", k, kind, n, pb(expected.as_bytes()), pb(got.as_bytes()), verdict).unwrap();
+        if std::env::var("C25_E2E_SHOW").is_ok() { writeln!(o, "  got text: {:?}", got.chars().take(300).collect::<String>()).unwrap(); }
         o.flush().unwrap();
     }
     drop(vm);
